@@ -84,6 +84,8 @@ MCPatternsOf(sd) ==
                                                                  <<ULook("wb"), ULook("nwb")>>, <<ULook("nwb"), ULook("wb")>>,
                                                                  <<UCat(ULit(SA), UWCls(TRUE)), UCat(ULit(SUA), UWCls(FALSE))>>}}
 MCWordSyms == {1, 2, 3, 4, 5, 6, 10, 11}
+\* records of --null-data searches that hold line feeds ((?m)^ and $ still refer to LF inside a record)
+MCLinesNulLF == SetToSeq(SeqsUpTo({SA, SB, SLF}, 3) \cup {<<SA, SLF, SLF, SB>>, <<SLF, SA, SLF>>, <<SB, SLF, SA, SB>>})
 NulSeeds == {[o |-> [Plain EXCEPT !.nul = TRUE], fam |-> f, pats |-> <<>>, fixed |-> FALSE] : f \in {"l1", "alt"}}
 TinySeeds == {[o |-> Plain, fam |-> "fixed", pats |-> <<>>, fixed |-> FALSE]}
 =============================================================================
